@@ -53,6 +53,15 @@ def r_term_table(ck: Checker) -> None:
                 v = v.args[1]
             got.add(unparse(it.expand(v, st)).replace(f"{t}.symbol", "symbol") if v is not None else "None")
         ck.add(f"constant of type {styp.split('.')[1]}", got == {want}, func, func.node, f"maps to {sorted(got)}; required {want}", "strings and #inf/#sup are not integers: relations over them must not be solved")
+    tt = ck.func(f"{G}._to_sympy_term")
+    itt2 = ck.interp(tt)
+    divs = [r for r in returns_of(tt) if r.value is not None and any(isinstance(n, ast.BinOp) and isinstance(n.op, (ast.Div, ast.Mod, ast.FloorDiv)) for n in ast.walk(r.value))]
+    ck.need(len(divs) >= 2, "division and modulo are translated")
+    for r in divs:
+        den = next(n.right for n in ast.walk(r.value) if isinstance(n, ast.BinOp) and isinstance(n.op, (ast.Div, ast.Mod, ast.FloorDiv)))  # type: ignore[union-attr]
+        okz = itt2.holds(r, f"{unparse(den)} != 0") or itt2.holds(r, f"not {unparse(den)} == 0")
+        ck.add(f"`{short(unparse(r.value), 40)}`: the divisor is not the constant 0", okz, tt, r, f"`{fmt(r)}` dominated by `{unparse(den)} != 0`: {okz}",
+               "sympy raises ZeroDivisionError for `X \\ 0` while the body is translated, before the try block of execute: optimize aborts (C03)", rule="C14.TABLE.terms.zero")
     s2a = ck.func(f"{G}.sympy2ast")
     its2 = ck.interp(s2a)
     ints = [c for c in calls_in(s2a, lambda c: isinstance(c.func, ast.Name) and c.func.id == "int" and len(c.args) == 1 and unparse(c.args[0]) == s2a.params()[1])]
@@ -402,7 +411,7 @@ def r_api_interface(ck: Checker) -> None:
 
 
 RULES = [
-    Rule("C14.TABLE.terms", P14, r_term_table),
+    Rule("C14.TABLE.terms", P14, r_term_table, extra={"C03": ("the divisor is not the constant 0",)}),
     Rule("C14.signs", P14, r_sign_handling),
     Rule("C14.acceptance", P14 + ("C06", "C04"), r_acceptance),
     Rule("C14.simplify", P14, r_simplify),
